@@ -149,8 +149,13 @@ func genC05(t *rapid.T) c05Case {
 				continue
 			}
 			si := rapid.IntRange(0, sess-1).Draw(t, "si")
-			c.Ops = append(c.Ops, model.Op{Kind: "mod", Peer: 0, Seq: uint32(300 + i), Sess: si, Note: "any",
-				UpdFARs: []model.FAR{{ID: 2, Action: model.ActFORW, HasFwd: true, DstIf: model.IfAccess, HasOHC: true, TEID: uint32(900 + i), Peer: "198.18.6.6"}}})
+			nf := model.FAR{ID: 2, Action: model.ActFORW, HasFwd: true, DstIf: model.IfAccess, HasOHC: true, TEID: uint32(900 + i), Peer: "198.18.6.6"}
+			if rapid.IntRange(0, 2).Draw(t, "idle") == 0 {
+				// the UE goes idle and the control plane keeps stating the tunnel
+				nf.Action = rapid.SampledFrom([]uint8{model.ActBUFF | model.ActNOCP, model.ActDROP}).Draw(t, "idleaction")
+				nf.Peer = rapid.SampledFrom([]string{"198.18.6.6", "198.18.4.2"}).Draw(t, "idlepeer")
+			}
+			c.Ops = append(c.Ops, model.Op{Kind: "mod", Peer: 0, Seq: uint32(300 + i), Sess: si, Note: "any", UpdFARs: []model.FAR{nf}})
 		case "del":
 			if sess == 0 {
 				continue
